@@ -48,11 +48,13 @@ local keys literally, global memo keys up to "absent or the value `F` prescribes
 structure Sim (F : Store → PKey → Val) (strict : Bool) (st st0 : State) : Prop where
   memoLocal : ∀ s k, isLocal k = true →
     lookup (s, (⟨some st.gen, k⟩ : TKey)) st.memo = lookup (s, (⟨some st0.gen, k⟩ : TKey)) st0.memo
-  memoGlobal : ∀ s k v, isLocal k = false →
+  memoGlobal : ∀ s k v, s.persists = true → isLocal k = false →
     (lookup (s, (⟨none, k⟩ : TKey)) st.memo = some v ∨ lookup (s, (⟨none, k⟩ : TKey)) st0.memo = some v) → v = F s k
+  memoVolatile : ∀ s k, s.persists = false → isLocal k = false →
+    lookup (s, (⟨none, k⟩ : TKey)) st.memo = lookup (s, (⟨none, k⟩ : TKey)) st0.memo
   addrLocal : ∀ k, isLocal k = true →
     lookup (⟨some st.gen, k⟩ : TKey) st.addr = lookup (⟨some st0.gen, k⟩ : TKey) st0.addr
-  addrGlobal : strict = false → ∀ k, isLocal k = false →
+  addrGlobal : ∀ k, isLocal k = false →
     lookup (⟨none, k⟩ : TKey) st.addr = lookup (⟨none, k⟩ : TKey) st0.addr
   db : strict = false → st.db = st0.db
 
@@ -64,14 +66,33 @@ theorem Sim.of_eq {st st0 st' st0' : State} (h : Sim F strict st st0)
     Sim F strict st' st0' := by
   constructor
   · intro s k hk; rw [h1, h2, g1, g2]; exact h.memoLocal s k hk
-  · intro s k v hk; rw [h2, g2]; exact h.memoGlobal s k v hk
+  · intro s k v hp hk; rw [h2, g2]; exact h.memoGlobal s k v hp hk
+  · intro s k hp hk; rw [h2, g2]; exact h.memoVolatile s k hp hk
   · intro k hk; rw [h1, h3, g1, g3]; exact h.addrLocal k hk
-  · intro hs k hk; rw [h3, g3]; exact h.addrGlobal hs k hk
+  · intro k hk; rw [h3, g3]; exact h.addrGlobal k hk
   · intro hs; rw [h4, g4]; exact h.db hs
 
 theorem Sim.note {st st0 : State} (h : Sim F strict st st0) (k k' : PKey) :
     Sim F strict (noteMemo st k) (noteMemo st0 k') :=
   h.of_eq rfl rfl rfl rfl rfl rfl rfl rfl
+
+theorem lookup_insMemo_local_of_global (st : State) (s s' : Store) (k k' : PKey) (v : Val) (g : Nat) :
+    lookup (s', (⟨none, k'⟩ : TKey)) (insMemo st s ⟨some g, k⟩ v).memo = lookup (s', (⟨none, k'⟩ : TKey)) st.memo := by
+  show lookup _ (_ :: st.memo) = _
+  rw [lookup_cons, if_neg]
+  intro he; injection he with _ e2; injection e2 with e3 _; cases e3
+
+theorem lookup_insMemo_global_of_local (st : State) (s s' : Store) (k k' : PKey) (v : Val) (g : Nat) :
+    lookup (s', (⟨some g, k'⟩ : TKey)) (insMemo st s ⟨none, k⟩ v).memo = lookup (s', (⟨some g, k'⟩ : TKey)) st.memo := by
+  show lookup _ (_ :: st.memo) = _
+  rw [lookup_cons, if_neg]
+  intro he; injection he with _ e2; injection e2 with e3 _; cases e3
+
+theorem lookup_insMemo_other_store (st : State) (s s' : Store) (tk tk' : TKey) (v : Val) (hne : s' ≠ s) :
+    lookup (s', tk') (insMemo st s tk v).memo = lookup (s', tk') st.memo := by
+  show lookup _ (_ :: st.memo) = _
+  rw [lookup_cons, if_neg]
+  intro he; injection he with e1 _; exact hne e1
 
 theorem Sim.insMemoLocal {st st0 : State} (h : Sim F strict st st0) (s : Store) (k : PKey) (v : Val) :
     Sim F strict (insMemo st s ⟨some st.gen, k⟩ v) (insMemo st0 s ⟨some st0.gen, k⟩ v) := by
@@ -88,35 +109,23 @@ theorem Sim.insMemoLocal {st st0 : State} (h : Sim F strict st st0) (s : Store) 
         intro he; injection he with e1 e2; injection e2 with _ e3; exact hc ⟨e1, e3⟩
       rw [if_neg n1, if_neg n2]
       exact h.memoLocal s' k' hk'
-  · intro s' k' v' hk' hv
-    have n1 : ∀ g, ¬ ((s', (⟨none, k'⟩ : TKey)) = (s, (⟨some g, k⟩ : TKey))) := by
-      intro g he; injection he with _ e2; injection e2 with e3 _; cases e3
-    have e1 : lookup (s', (⟨none, k'⟩ : TKey)) (insMemo st s ⟨some st.gen, k⟩ v).memo = lookup (s', (⟨none, k'⟩ : TKey)) st.memo := by
-      show lookup _ (_ :: st.memo) = _
-      rw [lookup_cons, if_neg (n1 _)]
-    have e2 : lookup (s', (⟨none, k'⟩ : TKey)) (insMemo st0 s ⟨some st0.gen, k⟩ v).memo = lookup (s', (⟨none, k'⟩ : TKey)) st0.memo := by
-      show lookup _ (_ :: st0.memo) = _
-      rw [lookup_cons, if_neg (n1 _)]
-    rw [e1, e2] at hv
-    exact h.memoGlobal s' k' v' hk' hv
+  · intro s' k' v' hp hk' hv
+    rw [lookup_insMemo_local_of_global, lookup_insMemo_local_of_global] at hv
+    exact h.memoGlobal s' k' v' hp hk' hv
+  · intro s' k' hp hk'
+    rw [lookup_insMemo_local_of_global, lookup_insMemo_local_of_global]
+    exact h.memoVolatile s' k' hp hk'
   · intro k' hk'; exact h.addrLocal k' hk'
-  · intro hs k' hk'; exact h.addrGlobal hs k' hk'
+  · intro k' hk'; exact h.addrGlobal k' hk'
   · intro hs; exact h.db hs
 
-theorem lookup_insMemo_global_of_local (st : State) (s s' : Store) (k k' : PKey) (v : Val) (g : Nat) :
-    lookup (s', (⟨some g, k'⟩ : TKey)) (insMemo st s ⟨none, k⟩ v).memo = lookup (s', (⟨some g, k'⟩ : TKey)) st.memo := by
-  show lookup _ (_ :: st.memo) = _
-  rw [lookup_cons, if_neg]
-  intro he; injection he with _ e2; injection e2 with e3 _; cases e3
-
 theorem Sim.insMemoGlobalLeft {st st0 : State} (h : Sim F strict st st0) (s : Store) (k : PKey) (v : Val)
-    (hv : v = F s k) : Sim F strict (insMemo st s ⟨none, k⟩ v) st0 := by
+    (hps : s.persists = true) (hv : v = F s k) : Sim F strict (insMemo st s ⟨none, k⟩ v) st0 := by
   constructor
   · intro s' k' hk'
-    have := lookup_insMemo_global_of_local st s s' k k' v st.gen
     show lookup (s', (⟨some st.gen, k'⟩ : TKey)) (insMemo st s ⟨none, k⟩ v).memo = _
-    rw [this]; exact h.memoLocal s' k' hk'
-  · intro s' k' v' hk' hv'
+    rw [lookup_insMemo_global_of_local]; exact h.memoLocal s' k' hk'
+  · intro s' k' v' hp hk' hv'
     rcases hv' with hv' | hv'
     · have : lookup (s', (⟨none, k'⟩ : TKey)) (insMemo st s ⟨none, k⟩ v).memo =
           if (s', (⟨none, k'⟩ : TKey)) = (s, (⟨none, k⟩ : TKey)) then some v else lookup (s', (⟨none, k'⟩ : TKey)) st.memo := rfl
@@ -126,22 +135,25 @@ theorem Sim.insMemoGlobalLeft {st st0 : State} (h : Sim F strict st st0) (s : St
         injection hc with e1 e2; injection e2 with _ e3
         cases hv'; subst e1; subst e3; exact hv
       · rw [if_neg hc] at hv'
-        exact h.memoGlobal s' k' v' hk' (Or.inl hv')
-    · exact h.memoGlobal s' k' v' hk' (Or.inr hv')
+        exact h.memoGlobal s' k' v' hp hk' (Or.inl hv')
+    · exact h.memoGlobal s' k' v' hp hk' (Or.inr hv')
+  · intro s' k' hp hk'
+    have hne : s' ≠ s := by intro e; rw [e, hps] at hp; cases hp
+    rw [lookup_insMemo_other_store _ _ _ _ _ _ hne]
+    exact h.memoVolatile s' k' hp hk'
   · intro k' hk'; exact h.addrLocal k' hk'
-  · intro hs k' hk'; exact h.addrGlobal hs k' hk'
+  · intro k' hk'; exact h.addrGlobal k' hk'
   · intro hs; exact h.db hs
 
 theorem Sim.insMemoGlobalRight {st st0 : State} (h : Sim F strict st st0) (s : Store) (k : PKey) (v : Val)
-    (hv : v = F s k) : Sim F strict st (insMemo st0 s ⟨none, k⟩ v) := by
+    (hps : s.persists = true) (hv : v = F s k) : Sim F strict st (insMemo st0 s ⟨none, k⟩ v) := by
   constructor
   · intro s' k' hk'
-    have := lookup_insMemo_global_of_local st0 s s' k k' v st0.gen
     show _ = lookup (s', (⟨some st0.gen, k'⟩ : TKey)) (insMemo st0 s ⟨none, k⟩ v).memo
-    rw [this]; exact h.memoLocal s' k' hk'
-  · intro s' k' v' hk' hv'
+    rw [lookup_insMemo_global_of_local]; exact h.memoLocal s' k' hk'
+  · intro s' k' v' hp hk' hv'
     rcases hv' with hv' | hv'
-    · exact h.memoGlobal s' k' v' hk' (Or.inl hv')
+    · exact h.memoGlobal s' k' v' hp hk' (Or.inl hv')
     · have : lookup (s', (⟨none, k'⟩ : TKey)) (insMemo st0 s ⟨none, k⟩ v).memo =
           if (s', (⟨none, k'⟩ : TKey)) = (s, (⟨none, k⟩ : TKey)) then some v else lookup (s', (⟨none, k'⟩ : TKey)) st0.memo := rfl
       rw [this] at hv'
@@ -150,16 +162,43 @@ theorem Sim.insMemoGlobalRight {st st0 : State} (h : Sim F strict st st0) (s : S
         injection hc with e1 e2; injection e2 with _ e3
         cases hv'; subst e1; subst e3; exact hv
       · rw [if_neg hc] at hv'
-        exact h.memoGlobal s' k' v' hk' (Or.inr hv')
+        exact h.memoGlobal s' k' v' hp hk' (Or.inr hv')
+  · intro s' k' hp hk'
+    have hne : s' ≠ s := by intro e; rw [e, hps] at hp; cases hp
+    rw [lookup_insMemo_other_store _ _ _ _ _ _ hne]
+    exact h.memoVolatile s' k' hp hk'
   · intro k' hk'; exact h.addrLocal k' hk'
-  · intro hs k' hk'; exact h.addrGlobal hs k' hk'
+  · intro k' hk'; exact h.addrGlobal k' hk'
+  · intro hs; exact h.db hs
+
+/-- a store that is emptied before every compilation: both runs insert the same entry -/
+theorem Sim.insMemoVolatile {st st0 : State} (h : Sim F strict st st0) (s : Store) (k : PKey) (v : Val)
+    (hps : s.persists = false) : Sim F strict (insMemo st s ⟨none, k⟩ v) (insMemo st0 s ⟨none, k⟩ v) := by
+  constructor
+  · intro s' k' hk'
+    show lookup (s', (⟨some st.gen, k'⟩ : TKey)) (insMemo st s ⟨none, k⟩ v).memo =
+      lookup (s', (⟨some st0.gen, k'⟩ : TKey)) (insMemo st0 s ⟨none, k⟩ v).memo
+    rw [lookup_insMemo_global_of_local, lookup_insMemo_global_of_local]; exact h.memoLocal s' k' hk'
+  · intro s' k' v' hp hk' hv'
+    have hne : s' ≠ s := by intro e; rw [e, hps] at hp; cases hp
+    rw [lookup_insMemo_other_store _ _ _ _ _ _ hne, lookup_insMemo_other_store _ _ _ _ _ _ hne] at hv'
+    exact h.memoGlobal s' k' v' hp hk' hv'
+  · intro s' k' hp hk'
+    show lookup _ (_ :: st.memo) = lookup _ (_ :: st0.memo)
+    rw [lookup_cons, lookup_cons]
+    by_cases hc : (s', (⟨none, k'⟩ : TKey)) = (s, (⟨none, k⟩ : TKey))
+    · rw [if_pos hc, if_pos hc]
+    · rw [if_neg hc, if_neg hc]; exact h.memoVolatile s' k' hp hk'
+  · intro k' hk'; exact h.addrLocal k' hk'
+  · intro k' hk'; exact h.addrGlobal k' hk'
   · intro hs; exact h.db hs
 
 theorem Sim.insAddrLocal {st st0 : State} (h : Sim F strict st st0) (k : PKey) (a : Nat) :
     Sim F strict (insAddr st ⟨some st.gen, k⟩ a) (insAddr st0 ⟨some st0.gen, k⟩ a) := by
   constructor
   · intro s' k' hk'; exact h.memoLocal s' k' hk'
-  · intro s' k' v' hk' hv; exact h.memoGlobal s' k' v' hk' hv
+  · intro s' k' v' hp hk' hv; exact h.memoGlobal s' k' v' hp hk' hv
+  · intro s' k' hp hk'; exact h.memoVolatile s' k' hp hk'
   · intro k' hk'
     show lookup _ (_ :: st.addr) = lookup _ (_ :: st0.addr)
     rw [lookup_cons, lookup_cons]
@@ -171,26 +210,27 @@ theorem Sim.insAddrLocal {st st0 : State} (h : Sim F strict st st0) (k : PKey) (
         intro he; injection he with _ e3; exact hc e3
       rw [if_neg n1, if_neg n2]
       exact h.addrLocal k' hk'
-  · intro hs k' hk'
+  · intro k' hk'
     show lookup _ (_ :: st.addr) = lookup _ (_ :: st0.addr)
     rw [lookup_cons, lookup_cons, if_neg, if_neg]
-    · exact h.addrGlobal hs k' hk'
+    · exact h.addrGlobal k' hk'
     · intro he; injection he with e3 _; cases e3
     · intro he; injection he with e3 _; cases e3
   · intro hs; exact h.db hs
 
-theorem Sim.insAddrGlobal {st st0 : State} (h : Sim F strict st st0) (hs : strict = false) (k : PKey) (a : Nat) :
+theorem Sim.insAddrGlobal {st st0 : State} (h : Sim F strict st st0) (k : PKey) (a : Nat) :
     Sim F strict (insAddr st ⟨none, k⟩ a) (insAddr st0 ⟨none, k⟩ a) := by
   constructor
   · intro s' k' hk'; exact h.memoLocal s' k' hk'
-  · intro s' k' v' hk' hv; exact h.memoGlobal s' k' v' hk' hv
+  · intro s' k' v' hp hk' hv; exact h.memoGlobal s' k' v' hp hk' hv
+  · intro s' k' hp hk'; exact h.memoVolatile s' k' hp hk'
   · intro k' hk'
     show lookup _ (_ :: st.addr) = lookup _ (_ :: st0.addr)
     rw [lookup_cons, lookup_cons, if_neg, if_neg]
     · exact h.addrLocal k' hk'
     · intro he; injection he with e3 _; cases e3
     · intro he; injection he with e3 _; cases e3
-  · intro _ k' hk'
+  · intro k' hk'
     show lookup _ (_ :: st.addr) = lookup _ (_ :: st0.addr)
     rw [lookup_cons, lookup_cons]
     by_cases hc : k' = k
@@ -198,16 +238,17 @@ theorem Sim.insAddrGlobal {st st0 : State} (h : Sim F strict st st0) (hs : stric
     · have n1 : ¬ ((⟨none, k'⟩ : TKey) = (⟨none, k⟩ : TKey)) := by
         intro he; injection he with _ e3; exact hc e3
       rw [if_neg n1, if_neg n1]
-      exact h.addrGlobal hs k' hk'
+      exact h.addrGlobal k' hk'
   · intro hs'; exact h.db hs'
 
 theorem Sim.log {st st0 : State} (h : Sim F strict st st0) (row : Nat) :
     Sim F strict (logRow st row) (logRow st0 row) := by
   constructor
   · intro s' k' hk'; exact h.memoLocal s' k' hk'
-  · intro s' k' v' hk' hv; exact h.memoGlobal s' k' v' hk' hv
+  · intro s' k' v' hp hk' hv; exact h.memoGlobal s' k' v' hp hk' hv
+  · intro s' k' hp hk'; exact h.memoVolatile s' k' hp hk'
   · intro k' hk'; exact h.addrLocal k' hk'
-  · intro hs k' hk'; exact h.addrGlobal hs k' hk'
+  · intro k' hk'; exact h.addrGlobal k' hk'
   · intro hs; show st.db ++ [row] = st0.db ++ [row]; rw [h.db hs]
 
 /-- on a global key whose stored value (if any) is the prescribed one, a memo node continues with `F s k` -/
@@ -237,16 +278,23 @@ theorem run_sim {α : Type} {p : Prog α} (hp : Suff F strict p) :
         have := (hsim.note k k).insMemoLocal s k v
         exact ih v _ _ this
     | false =>
-      have hv' := hv hk
-      have h1 := run_memo_global (F := F) st s k v cont hk hv' (fun v' h => hsim.memoGlobal s k v' hk (Or.inl h))
-      have h2 := run_memo_global (F := F) st0 s k v cont hk hv' (fun v' h => hsim.memoGlobal s k v' hk (Or.inr h))
-      have base := hsim.note k k
-      rcases h1 with h1 | h1 <;> rcases h2 with h2 | h2 <;> rw [h1, h2]
-      · exact ih _ _ _ base
-      · exact ih _ _ _ (base.insMemoGlobalRight s k _ rfl)
-      · exact ih _ _ _ (base.insMemoGlobalLeft s k _ rfl)
-      · exact ih _ _ _ ((base.insMemoGlobalLeft s k _ rfl).insMemoGlobalRight s k _ rfl)
-  | assign k a next hloc _ ih =>
+      cases hps : s.persists with
+      | true =>
+        have hv' := hv hps hk
+        have h1 := run_memo_global (F := F) st s k v cont hk hv' (fun v' h => hsim.memoGlobal s k v' hps hk (Or.inl h))
+        have h2 := run_memo_global (F := F) st0 s k v cont hk hv' (fun v' h => hsim.memoGlobal s k v' hps hk (Or.inr h))
+        have base := hsim.note k k
+        rcases h1 with h1 | h1 <;> rcases h2 with h2 | h2 <;> rw [h1, h2]
+        · exact ih _ _ _ base
+        · exact ih _ _ _ (base.insMemoGlobalRight s k _ hps rfl)
+        · exact ih _ _ _ (base.insMemoGlobalLeft s k _ hps rfl)
+        · exact ih _ _ _ ((base.insMemoGlobalLeft s k _ hps rfl).insMemoGlobalRight s k _ hps rfl)
+      | false =>
+        rw [run, run, tkey_global _ hk, tkey_global _ hk, hsim.memoVolatile s k hps hk]
+        cases lookup (s, (⟨none, k⟩ : TKey)) st0.memo with
+        | some v' => exact ih v' _ _ (hsim.note k k)
+        | none => exact ih v _ _ ((hsim.note k k).insMemoVolatile s k v hps)
+  | assign k a next _ ih =>
     intro st st0 hsim
     cases hk : isLocal k with
     | true =>
@@ -258,29 +306,21 @@ theorem run_sim {α : Type} {p : Prog α} (hp : Suff F strict p) :
         · simp only [if_neg ha]
       | none => exact ih _ _ ((hsim.note k k).insAddrLocal k a)
     | false =>
-      have hs : strict = false := by
-        cases strict with
-        | false => rfl
-        | true => rw [hloc rfl] at hk; cases hk
-      rw [run, run, tkey_global _ hk, tkey_global _ hk, hsim.addrGlobal hs k hk]
+      rw [run, run, tkey_global _ hk, tkey_global _ hk, hsim.addrGlobal k hk]
       cases lookup (⟨none, k⟩ : TKey) st0.addr with
       | some a' =>
         by_cases ha : a' = a
         · simp only [if_pos ha]; exact ih _ _ (hsim.note k k)
         · simp only [if_neg ha]
-      | none => exact ih _ _ ((hsim.note k k).insAddrGlobal hs k a)
-  | addrOf k cont hloc _ ih =>
+      | none => exact ih _ _ ((hsim.note k k).insAddrGlobal k a)
+  | addrOf k cont _ ih =>
     intro st st0 hsim
     cases hk : isLocal k with
     | true =>
       rw [run, run, tkey_local _ hk, tkey_local _ hk, hsim.addrLocal k hk]
       exact ih _ _ _ hsim
     | false =>
-      have hs : strict = false := by
-        cases strict with
-        | false => rfl
-        | true => rw [hloc rfl] at hk; cases hk
-      rw [run, run, tkey_global _ hk, tkey_global _ hk, hsim.addrGlobal hs k hk]
+      rw [run, run, tkey_global _ hk, tkey_global _ hk, hsim.addrGlobal k hk]
       exact ih _ _ _ hsim
   | log row next _ ih =>
     intro st st0 hsim
@@ -290,6 +330,16 @@ theorem run_sim {α : Type} {p : Prog α} (hp : Suff F strict p) :
     intro st st0 hsim
     rw [run, run, hsim.db hs]
     exact ih _ _ _ hsim
+
+/-- forbidding the dump is the stronger hypothesis -/
+theorem Suff.weaken {α : Type} {p : Prog α} (hp : Suff F true p) : Suff F false p := by
+  induction hp with
+  | ret a => exact .ret a
+  | memo s k v cont hv _ ih => exact .memo s k v cont hv ih
+  | assign k a next _ ih => exact .assign k a next ih
+  | addrOf k cont _ ih => exact .addrOf k cont ih
+  | log row next _ ih => exact .log row next ih
+  | dump cont hs _ _ => cases hs
 
 /-! ### what every history maintains -/
 
@@ -305,7 +355,7 @@ theorem inv_init : Inv F 0 init :=
   ⟨fun e he => by simp [init] at he, fun e he => by simp [init] at he, fun e he => by simp [init] at he⟩
 
 theorem Inv.insMemo {n : Nat} {st : State} (h : Inv F n st) (s : Store) (k : PKey) (v : Val) (g : Nat) (hg : g < n)
-    (hv : isLocal k = false → v = F s k) : Inv F n (insMemo st s (tkey g k) v) := by
+    (hv : s.persists = true → isLocal k = false → v = F s k) : Inv F n (insMemo st s (tkey g k) v) := by
   constructor
   · intro e he g' hg'
     rcases List.mem_cons.mp he with rfl | he
@@ -313,12 +363,12 @@ theorem Inv.insMemo {n : Nat} {st : State} (h : Inv F n st) (s : Store) (k : PKe
       | true => rw [tkey_local _ hk] at hg'; cases hg'; exact hg
       | false => rw [tkey_global _ hk] at hg'; cases hg'
     · exact h.memoScope e he g' hg'
-  · intro e he hn
+  · intro e he hn hp
     rcases List.mem_cons.mp he with rfl | he
     · cases hk : isLocal k with
       | true => rw [tkey_local _ hk] at hn; cases hn
-      | false => rw [tkey_global _ hk]; exact hv hk
-    · exact h.memoGlobal e he hn
+      | false => rw [tkey_global _ hk]; exact hv hp hk
+    · exact h.memoGlobal e he hn hp
   · exact h.addrScope
 
 theorem Inv.insAddr {n : Nat} {st : State} (h : Inv F n st) (k : PKey) (a : Nat) (g : Nat) (hg : g < n) :
@@ -347,7 +397,7 @@ theorem run_inv {α : Type} {p : Prog α} (hp : Suff F strict p) :
       have h' : Inv F (st.gen + 1) (insMemo (noteMemo st k) s (tkey st.gen k) v) :=
         (h.of_eq (st' := noteMemo st k) rfl rfl).insMemo s k v st.gen (Nat.lt_succ_self _) hv
       exact ih v (insMemo (noteMemo st k) s (tkey st.gen k) v) h'
-  | assign k a next _ _ ih =>
+  | assign k a next _ ih =>
     intro st h
     rw [run]
     cases lookup (tkey st.gen k) st.addr with
@@ -359,14 +409,29 @@ theorem run_inv {α : Type} {p : Prog α} (hp : Suff F strict p) :
       have h' : Inv F (st.gen + 1) (insAddr (noteMemo st k) (tkey st.gen k) a) :=
         (h.of_eq (st' := noteMemo st k) rfl rfl).insAddr k a st.gen (Nat.lt_succ_self _)
       exact ih (insAddr (noteMemo st k) (tkey st.gen k) a) h'
-  | addrOf k cont _ _ ih => intro st h; rw [run]; exact ih _ st h
+  | addrOf k cont _ ih => intro st h; rw [run]; exact ih _ st h
   | log row next _ ih => intro st h; rw [run]; exact ih (logRow st row) (h.of_eq rfl rfl)
   | dump cont _ _ ih => intro st h; rw [run]; exact ih _ st h
 
+theorem prepare_gen (e : Entry) (st : State) : (prepare e st).gen = st.gen := by cases e <;> rfl
+
+theorem prepare_memo (e : Entry) (st : State) : (prepare e st).memo = st.memo.filter (fun e => e.1.1.persists) := by
+  cases e <;> rfl
+
+theorem prepare_addr (e : Entry) (st : State) : (prepare e st).addr = [] := by cases e <;> rfl
+
+theorem prepare_init (e : Entry) : prepare e init = init := by cases e <;> rfl
+
+theorem Inv.prepare {n : Nat} {st : State} (h : Inv F n st) (e : Entry) : Inv F n (prepare e st) := by
+  refine ⟨?_, ?_, ?_⟩
+  · rw [prepare_memo]; intro x hx; exact h.memoScope x (List.mem_filter.mp hx).1
+  · rw [prepare_memo]; intro x hx; exact h.memoGlobal x (List.mem_filter.mp hx).1
+  · rw [prepare_addr]; intro x hx; cases hx
+
 theorem compile_fst {ρ ω : Type} (prog : ρ → Prog ω) (e : Entry) (st : State) (rq : ρ) :
-    (compile prog e st rq).1 = (run (prog rq) st).1 := by
+    (compile prog e st rq).1 = (run (prog rq) (prepare e st)).1 := by
   unfold compile
-  rcases hr : run (prog rq) st with ⟨o, st'⟩
+  rcases hr : run (prog rq) (prepare e st) with ⟨o, st'⟩
   cases o <;> rfl
 
 theorem Inv.cleanup {n : Nat} {st : State} (h : Inv F n st) (e : Entry) : Inv F n (cleanup e st) := by
@@ -377,9 +442,11 @@ theorem Inv.cleanup {n : Nat} {st : State} (h : Inv F n st) (e : Entry) : Inv F 
 
 theorem compile_inv {ρ ω : Type} (prog : ρ → Prog ω) (hs : ∀ r, Suff F strict (prog r)) (e : Entry) (st : State) (rq : ρ)
     (h : Inv F st.gen st) : Inv F (compile prog e st rq).2.gen (compile prog e st rq).2 := by
-  have hr := run_inv (hs rq) st (h.mono (Nat.le_succ _))
+  have hp : Inv F ((prepare e st).gen + 1) (prepare e st) := by
+    rw [prepare_gen]; exact (h.prepare e).mono (Nat.le_succ _)
+  have hr := run_inv (hs rq) (prepare e st) hp
   unfold compile
-  rcases hrun : run (prog rq) st with ⟨o, st'⟩
+  rcases hrun : run (prog rq) (prepare e st) with ⟨o, st'⟩
   rw [hrun] at hr
   obtain ⟨hinv, hgen⟩ := hr
   simp only at hinv hgen
@@ -402,39 +469,36 @@ theorem after_inv {ρ ω : Type} (prog : ρ → Prog ω) (hs : ∀ r, Suff F str
     show Inv F (after prog t (compile prog er.1 st er.2).2).gen (after prog t (compile prog er.1 st er.2).2)
     exact ih _ (compile_inv prog hs er.1 st er.2 hi)
 
-/-- a state left by any history answers a compilation exactly as the initial state does, as long as the compilation
-only touches addresses of identities it created itself and does not dump the debug database -/
-theorem sim_init_of_inv {st : State} (h : Inv F st.gen st) : Sim F true st init := by
+/-- after `prepare`, a state left by any history answers a compilation exactly as the initial state does — up to the
+debug database, which only `main` cleans -/
+theorem sim_prepare_of_inv {st : State} (h : Inv F st.gen st) (e : Entry) (hd : strict = false → e = .main) :
+    Sim F strict (prepare e st) init := by
   constructor
   · intro s k _
-    rw [lookup_none_of_forall _ st.memo]
+    rw [lookup_none_of_forall _ (prepare e st).memo]
     · rfl
-    · intro e he heq
-      have := h.memoScope e he st.gen (by rw [heq])
+    · intro x hx heq
+      rw [prepare_memo] at hx
+      have := h.memoScope x (List.mem_filter.mp hx).1 st.gen (by rw [heq, prepare_gen])
       exact Nat.lt_irrefl _ this
-  · intro s k v _ hv
+  · intro s k v hp _ hv
     rcases hv with hv | hv
-    · have := h.memoGlobal _ (mem_of_lookup_some _ _ _ hv) rfl
-      exact this
+    · have hm := mem_of_lookup_some _ _ _ hv
+      rw [prepare_memo] at hm
+      exact h.memoGlobal _ (List.mem_filter.mp hm).1 rfl hp
     · cases hv
-  · intro k _
-    rw [lookup_none_of_forall _ st.addr]
+  · intro s k hp _
+    rw [lookup_none_of_forall _ (prepare e st).memo]
     · rfl
-    · intro e he heq
-      have := h.addrScope e he st.gen (by rw [heq])
-      exact Nat.lt_irrefl _ this
-  · intro hs; cases hs
-  · intro hs; cases hs
-
-/-- the same without the two restrictions, for a state whose address map and debug database are empty -/
-theorem sim_init_of_inv_clean {st : State} (h : Inv F st.gen st) (ha : st.addr = []) (hd : st.db = []) :
-    Sim F false st init := by
-  have base := sim_init_of_inv h
-  constructor
-  · exact base.memoLocal
-  · exact base.memoGlobal
-  · exact base.addrLocal
-  · intro _ k _; rw [ha]; rfl
-  · intro _; rw [hd]; rfl
+    · intro x hx heq
+      rw [prepare_memo] at hx
+      have hx' := (List.mem_filter.mp hx).2
+      rw [heq] at hx'
+      simp only at hx'
+      rw [hp] at hx'
+      cases hx'
+  · intro k _; rw [prepare_addr]; rfl
+  · intro k _; rw [prepare_addr]; rfl
+  · intro hs; rw [hd hs]; rfl
 
 end VelaVerif.Caches
